@@ -55,10 +55,20 @@ BATCH_TIMEOUT = float(os.environ.get('VERIF_BATCH_TIMEOUT', '120'))
 
 def _run_once(cfg, lines, timeout):
     data = ('\n'.join(lines) + '\n').encode()
-    try:
-        p = subprocess.run([worker_path(cfg), 'batch'], input=data, stdout=subprocess.PIPE, stderr=subprocess.PIPE, timeout=timeout)
-    except subprocess.TimeoutExpired:
-        return None, 'hang'
+    for attempt in (0, 1, 2):
+        try:
+            p = subprocess.run([worker_path(cfg), 'batch'], input=data, stdout=subprocess.PIPE, stderr=subprocess.PIPE, timeout=timeout)
+            break
+        except subprocess.TimeoutExpired:
+            return None, 'hang'
+        except (FileNotFoundError, PermissionError, OSError) as e:
+            # another check is relinking this configuration right now: wait for its build lock, then try again
+            if attempt == 2:
+                raise Machinery('worker binary for configuration %s is not runnable: %s' % (cfg, e))
+            with open(os.path.join(HARNESS, 'target', '.lock-' + cfg), 'w') as lock:
+                fcntl.flock(lock, fcntl.LOCK_EX)
+                fcntl.flock(lock, fcntl.LOCK_UN)
+            time.sleep(0.5)
     out = p.stdout.decode('utf-8', 'replace').split('\n')
     if out and out[-1] == '':
         out.pop()
